@@ -253,3 +253,140 @@ func TestVerifC13UnmonitorDuringLoad(t *testing.T) {
 	w.Flush()
 	f.Close()
 }
+
+// verifJoiner is a further listener of a watched key (a real container behind it); while it is
+// handed the FIRST known value it changes ANOTHER known key in etcd (delete / new value) and
+// gives the watch goroutine the time to handle that event.
+type verifJoiner struct {
+	c     *container
+	first bool
+	act   func(other string)
+	keys  []string
+}
+
+func (j *verifJoiner) OnAdd(kv internal.KV) {
+	j.c.OnAdd(kv)
+	if !j.first {
+		j.first = true
+		for _, k := range j.keys {
+			if k != kv.Key {
+				j.act(k)
+				break
+			}
+		}
+	}
+}
+
+func (j *verifJoiner) OnDelete(kv internal.KV) { j.c.OnDelete(kv) }
+
+// C13 monitor: a second subscriber joins a watched key (Registry.Monitor: attach, replay)
+// while an event about a key it has not been handed yet is handled by the watch goroutine.
+func TestVerifC13JoinDuringEvent(t *testing.T) {
+	out := os.Getenv("VERIF_OUT")
+	if out == "" {
+		t.Skip("no VERIF_OUT")
+	}
+	res := map[string]any{"id": 0}
+	for _, variant := range []string{"delete", "change"} {
+		host := "verif-c13-join-" + variant
+		etcd := internal.VerifNewEtcd(host)
+		subA, err := NewSubscriber([]string{host}, "svc")
+		if err != nil {
+			t.Fatal(err)
+		}
+		tag := internal.VerifTag("svc", false)
+		etcd.VerifBind(host)
+		etcd.VPut("svc/k1", "v1")
+		etcd.VPut("svc/k2", "v2")
+		ok := etcd.Quiesce([]string{tag}, 5*time.Second)
+		j := &verifJoiner{c: newContainer(false), keys: []string{"svc/k1", "svc/k2"}}
+		var touched string
+		j.act = func(other string) {
+			touched = other
+			if variant == "delete" {
+				etcd.VDelete(other)
+			} else {
+				etcd.VPut(other, "v9")
+			}
+			etcd.QuiesceLoose(nil, 300*time.Millisecond)
+			time.Sleep(5 * time.Millisecond)
+		}
+		if err := internal.GetRegistry().Monitor([]string{host}, "svc", false, j); err != nil {
+			t.Fatal(err)
+		}
+		ok = etcd.Quiesce([]string{tag}, 5*time.Second) && ok
+		res[variant] = map[string]any{"quiet": ok, "touched": touched, "first": verifSorted(subA.Values()),
+			"joiner": verifSorted(j.c.getValues()), "state": internal.VerifClusterState(host)}
+	}
+	f, err := os.Create(out)
+	if err != nil {
+		t.Fatal(err)
+	}
+	w := bufio.NewWriter(f)
+	b, _ := json.Marshal(res)
+	w.Write(b)
+	w.WriteByte('\n')
+	w.Flush()
+	f.Close()
+}
+
+// C13 observation replay: the first subscriber of a key is still inside monitor()'s load (its Get
+// fails once) when cluster.reload runs: reload also starts a load + watch for that key.
+func TestVerifC13MonitorDuringReload(t *testing.T) {
+	out := os.Getenv("VERIF_OUT")
+	if out == "" {
+		t.Skip("no VERIF_OUT")
+	}
+	host := "verif-c13-monitor-reload"
+	etcd := internal.VerifNewEtcd(host)
+	subA, err := NewSubscriber([]string{host}, "svc")
+	if err != nil {
+		t.Fatal(err)
+	}
+	tagA, tagB := internal.VerifTag("svc", false), internal.VerifTag("svc/a", false)
+	etcd.VerifBind(host)
+	etcd.VPut("svc/a/k1", "v1")
+	res := map[string]any{"id": 0}
+	res["quiet0"] = etcd.Quiesce([]string{tagA}, 5*time.Second)
+	etcd.VGetErrsTag(tagB, 1)
+	var subB *Subscriber
+	done := make(chan struct{})
+	go func() {
+		subB, _ = NewSubscriber([]string{host}, "svc/a")
+		close(done)
+	}()
+	for i := 0; i < 5000 && !verifStackHas2(".(*cluster).load(", "time.Sleep"); i++ {
+		time.Sleep(200 * time.Microsecond)
+	}
+	res["loading"] = verifStackHas2(".(*cluster).load(", "time.Sleep")
+	internal.VerifClusterReload(host)
+	<-done
+	var mu sync.Mutex
+	notes := 0
+	subB.AddListener(func() {
+		mu.Lock()
+		notes++
+		mu.Unlock()
+	})
+	res["quiet1"] = etcd.QuiesceLoose([]string{tagA, tagB}, 5*time.Second)
+	res["live"] = etcd.Live()
+	etcd.VPut("svc/a/k2", "v2")
+	etcd.VDelete("svc/a/k1")
+	res["quiet2"] = etcd.QuiesceLoose([]string{tagA, tagB}, 5*time.Second)
+	time.Sleep(20 * time.Millisecond)
+	res["valuesA"] = verifSorted(subA.Values())
+	res["valuesB"] = verifSorted(subB.Values())
+	mu.Lock()
+	res["notesB"] = notes
+	mu.Unlock()
+	f, err := os.Create(out)
+	if err != nil {
+		t.Fatal(err)
+	}
+	w := bufio.NewWriter(f)
+	b, _ := json.Marshal(res)
+	w.Write(b)
+	w.WriteByte('\n')
+	w.Flush()
+	f.Close()
+}
